@@ -69,7 +69,10 @@ def c03a(ck, prog):
     for c in caps:
         ws = unchecked_writes(prog, f, c)
         if not ws:
-            continue  # a buffer written only with checked methods (the SSE message)
+            # a buffer written only with checked methods (the SSE message; or an arm rewritten with extend_from_slice):
+            # nothing can be written past its capacity
+            ck.ob(R, "buffer@%s:checked-writes-only" % (len([x for x in caps if x.bb < c.bb])), True, f.loc(c.sp), how="no unchecked write into this buffer", nontrivial=False)
+            continue
         arms += 1
         terms0 = decision.add_terms(f, c.args[0])
         terms = [t for t, _ in terms0]
@@ -100,8 +103,9 @@ def c03a(ck, prog):
                   "" if ok else "Response::send (arm %s) writes `%s` unchecked into a buffer whose reserved capacity [%s] has no term for it" % (arm, what, " + ".join(terms)),
                   how="capacity term `%s` covers the write" % hit)
         # the buffer must not be written unchecked twice with the same term nor after being sent: each write consumed one term
-    ck.floor(R, "send arms with unchecked writes", arms, 4)
-    ck.floor(R, "unchecked writes", nwrites, 9)
+    # the floor is on the buffers found, not on how many of them are written unchecked: replacing the unchecked pushes by
+    # checked ones is a correct change and must not be reported
+    ck.floor(R, "output buffers built in send", len(caps), 5)
     # WHO: write_unchecked_to is called only by functions that reserved `size` for the same Headers
     callers = prog.callers().get("ohkami::response::headers::Headers::write_unchecked_to", [])
     for c in callers:
